@@ -14,6 +14,7 @@ import (
 	_ "go.amzn.com/verifh/c10"
 	_ "go.amzn.com/verifh/c11"
 	_ "go.amzn.com/verifh/c12"
+	_ "go.amzn.com/verifh/c13"
 	_ "go.amzn.com/verifh/c14"
 	_ "go.amzn.com/verifh/c15"
 	_ "go.amzn.com/verifh/c16"
